@@ -239,13 +239,9 @@ def purity(repo: Repo, rep, P: str):
             n_eff += 1
             where = f"{f.rel}:{e.node.lineno}"
             tgt = e.target
-            if not (tgt.startswith("self.") or ".self." in tgt or tgt.split(".")[0] in _param_names(f) or "self." in tgt):
-                # store through a non-fresh local that is not self/parameter: unknown owner
-                if e.kind == "store" and isinstance(getattr(e.node, "targets", [None])[0], ast.Subscript):
-                    pass
-                else:
-                    continue
             first = tgt.split(".")[1].split("[")[0].split("(")[0] if "." in tgt else tgt
+            if "[= " in tgt:
+                first = tgt.split("[= ")[1].split(".")[1].split("…")[0].split(".")[0]
             if first.startswith("_") or not e.public:
                 private_seen.setdefault(first, key)
                 continue
